@@ -196,9 +196,40 @@ def replay_history(init, hist):
     return m, l, None
 
 
+def independence(r, l, w):
+    """A mapping built from another mapping is a copy: changing either afterwards must not show in the other."""
+    from baize.datastructures import FormData, MultiMapping, QueryParams, MutableMultiMapping
+
+    for src_cls in (MutableMultiMapping, QueryParams):
+        for dst_cls in (MutableMultiMapping, QueryParams, FormData, MultiMapping):
+            r.count("evaluations")
+            try:
+                src = src_cls(list(l))
+                dst = dst_cls(src)
+                before_src, before_dst = views(src), views(dst)
+                problems = []
+                if isinstance(dst, MutableMultiMapping):
+                    dst.append("zz", "new")
+                    dst["a"] = "changed"
+                    if views(src) != before_src:
+                        problems.append(f"changing the {dst_cls.__name__} copy changed its {src_cls.__name__} source")
+                    before_dst = views(dst)
+                if isinstance(src, MutableMultiMapping):
+                    src.append("yy", "new")
+                    src.setlist("b", ["x", "y"])
+                    src.pop("a", None)
+                    if views(dst) != before_dst:
+                        problems.append(f"changing the {src_cls.__name__} source changed its {dst_cls.__name__} copy")
+            except Exception as e:  # noqa
+                problems = [f"raised {e!r:.100}"]
+            for pr in problems:
+                r.violation(f"copy-not-independent:{src_cls.__name__}->{dst_cls.__name__}", {"pairs": list(l), "copy": [src_cls.__name__, dst_cls.__name__]}, f"pairs {l}: {pr}")
+
+
 def immutable_views(r, l, w):
     from baize.datastructures import FormData, MultiMapping, QueryParams, MutableMultiMapping
 
+    independence(r, l, w)
     rv = ref_views(l)
     for cls in (MultiMapping, QueryParams, FormData, MutableMultiMapping):
         r.count("evaluations")
@@ -306,6 +337,9 @@ def replay(w):
         if prob is not None:
             return True, {"problem": prob}
         immutable_views(r, l, w)
+        return bool(r.viol), {"violations": sorted(r.viol)}
+    if "copy" in w:
+        independence(r, [tuple(p) for p in w["pairs"]], w)
         return bool(r.viol), {"violations": sorted(r.viol)}
     if "cls" in w:
         immutable_views(r, [tuple(p) for p in w["pairs"]], w)
